@@ -226,7 +226,10 @@ impl<'a> Namespace<'a> {
         while !defs_stack.is_empty() {
             if let Some(defs) = defs_stack.pop() {
                 for def in defs {
-                    sub_types.insert(def);
+                    if !sub_types.insert(def) {
+                        // Already visited, a cyclic 'is' chain must not loop forever
+                        continue;
+                    }
 
                     let next_subtypes = self.subtypes_of(def.def_symbol());
 
@@ -300,7 +303,10 @@ impl<'a> Namespace<'a> {
         while !defs_stack.is_empty() {
             if let Some(defs) = defs_stack.pop() {
                 for def in defs {
-                    super_types.insert(def);
+                    if !super_types.insert(def) {
+                        // Already visited, a cyclic 'is' chain must not loop forever
+                        continue;
+                    }
 
                     let next_subtypes = self.supertypes_of(def.def_symbol());
                     if !next_subtypes.is_empty() {
